@@ -61,6 +61,11 @@ func runC08(c *Ctx) {
 	_, attDER, _ := issueSM2(certSpec{cn: "client sign", serial: 20, keyUsage: kuS, eku: []gx509.ExtKeyUsage{gx509.ExtKeyUsageClientAuth}}, &attKey.PublicKey, nil, attKey, r)
 	victimThenOwn := gmtls.Certificate{Certificate: [][]byte{pki.cliSigCert.Raw, attDER}, PrivateKey: attKey}
 	ownThenVictim := gmtls.Certificate{Certificate: [][]byte{attDER, pki.cliSigCert.Raw}, PrivateKey: attKey}
+	// certificates that were valid for decades but are expired at the *configured* time (2030): an endpoint that consults
+	// any other clock than Config.Time would most likely accept them
+	oldSig := issue("server sign", 111, kuS, []string{tlsServerName}, time.Date(2000, 1, 1, 0, 0, 0, 0, time.UTC), time.Date(2029, 1, 1, 0, 0, 0, 0, time.UTC), newSM2Key(r))
+	oldEnc := issue("server enc", 112, kuE, []string{tlsServerName}, time.Date(2000, 1, 1, 0, 0, 0, 0, time.UTC), time.Date(2029, 1, 1, 0, 0, 0, 0, time.UTC), newSM2Key(r))
+	oldCli := issue("client sign", 113, kuS, nil, time.Date(2000, 1, 1, 0, 0, 0, 0, time.UTC), time.Date(2029, 1, 1, 0, 0, 0, 0, time.UTC), newSM2Key(r))
 	// a forged pair that only *looks like* the trusted root: self-signed, same subject and serial number as the root,
 	// the victim's name in the SAN, keys owned by the forger
 	lookalike := func(ku gx509.KeyUsage) gmtls.Certificate {
@@ -123,6 +128,7 @@ func runC08(c *Ctx) {
 		for _, ipn := range []string{"127.0.0.1", "[::1]"} {
 			ids = append(ids, idCase{name: "control/ip-san-certificates/" + ipn, srvCerts: []gmtls.Certificate{ipSig, ipEnc}, attacked: "none", suite: su, srvName: ipn})
 		}
+		add("server-certificates-expired-at-the-configured-time(valid 2000..2029)", []gmtls.Certificate{oldSig, oldEnc}, "client")
 		add("server-sign-and-enc-swapped", []gmtls.Certificate{pki.enc, pki.sig}, "client")
 		add("server-rsa-certificates", []gmtls.Certificate{pki.rsaCert, pki.rsaCert}, "client")
 		add("server-p256-sign-cert", []gmtls.Certificate{pki.ecCert, pki.enc}, "client")
@@ -134,6 +140,7 @@ func runC08(c *Ctx) {
 			ids = append(ids, idCase{name: "client-victim-leaf-then-own-cert-signed-with-own-key/" + authName(a), srvCerts: []gmtls.Certificate{pki.sig, pki.enc}, cliCerts: []gmtls.Certificate{victimThenOwn, pki.cliEnc}, auth: a, attacked: "server", suite: su})
 			ids = append(ids, idCase{name: "client-own-cert-then-victim-leaf-signed-with-own-key/" + authName(a), srvCerts: []gmtls.Certificate{pki.sig, pki.enc}, cliCerts: []gmtls.Certificate{ownThenVictim, pki.cliEnc}, auth: a, attacked: "server", suite: su})
 			ids = append(ids, idCase{name: "client-root-lookalike-certificate/" + authName(a), srvCerts: []gmtls.Certificate{pki.sig, pki.enc}, cliCerts: []gmtls.Certificate{lookSig, lookEnc}, auth: a, attacked: "server", suite: su})
+			ids = append(ids, idCase{name: "client-cert-expired-at-the-configured-time(valid 2000..2029)/" + authName(a), srvCerts: []gmtls.Certificate{pki.sig, pki.enc}, cliCerts: []gmtls.Certificate{oldCli, pki.cliEnc}, auth: a, attacked: "server", suite: su})
 			ids = append(ids, idCase{name: "client-cert-expired/" + authName(a), srvCerts: []gmtls.Certificate{pki.sig, pki.enc}, cliCerts: []gmtls.Certificate{expCli}, auth: a, attacked: "server", suite: su})
 			ids = append(ids, idCase{name: "client-cert-is-a-server-enc-cert-of-other-pki/" + authName(a), srvCerts: []gmtls.Certificate{pki.sig, pki.enc}, cliCerts: []gmtls.Certificate{pki.other.enc}, auth: a, attacked: "server", suite: su})
 		}
@@ -153,6 +160,12 @@ func runC08(c *Ctx) {
 		w := map[string]interface{}{"attack": ic.name, "suite": suiteName(ic.suite), "client_error": errStr(out.cli.err), "server_error": errStr(out.srv.err)}
 		c08Judge(rep, "identity/"+ic.name, ic.attacked, out, w)
 		rep.Eval("identity/" + ic.name + "/" + suiteName(ic.suite))
+		// the same case through copies made by Config.Clone (what Dial, GetConfigForClient users and credential wrappers
+		// hand to the handshake): a copy must enforce exactly what the original enforces
+		outC := handshakePair(ccfg.Clone(), scfg.Clone(), nil)
+		wc := map[string]interface{}{"attack": ic.name, "suite": suiteName(ic.suite), "through": "Config.Clone()", "client_error": errStr(outC.cli.err), "server_error": errStr(outC.srv.err)}
+		c08Judge(rep, "identity-via-Clone/"+ic.name, ic.attacked, outC, wc)
+		rep.Eval("identity-via-Clone/" + ic.name + "/" + suiteName(ic.suite))
 	})
 
 	runC08Resumption(c, pki)
@@ -708,7 +721,8 @@ func runC08Resumption(c *Ctx, pki *tlsPKI) {
 		notBefore: fixedNow.Add(-time.Hour), notAfter: fixedNow.Add(time.Hour)}, &shortKey.PublicKey, pki.root, pki.rootKey, r)
 	shortCert := gmtls.Certificate{Certificate: [][]byte{shortDER}, PrivateKey: shortKey}
 	for _, m := range modes {
-		for _, scen := range []string{"ticket-from-lax-server-offered-to-strict-server", "client-certificate-expires-between-connections", "control"} {
+		for _, scen := range []string{"ticket-from-lax-server-offered-to-strict-server", "client-certificate-expires-between-connections",
+			"ticket-of-a-certificate-less-session-offered-to-a-server-requiring-verified-certificates", "ticket-of-a-certificate-less-session-offered-to-a-server-requiring-any-certificate", "control"} {
 			var key [32]byte
 			r.Fill(key[:])
 			now1, now2 := fixedNow, fixedNow
@@ -743,6 +757,12 @@ func runC08Resumption(c *Ctx, pki *tlsPKI) {
 				certs = []gmtls.Certificate{shortCert, pki.cliEnc}
 				first, second = mkSrv(gmtls.RequireAndVerifyClientCert, &now1), mkSrv(gmtls.RequireAndVerifyClientCert, &now2)
 				now2 = fixedNow.Add(3 * time.Hour)
+			case "ticket-of-a-certificate-less-session-offered-to-a-server-requiring-verified-certificates":
+				certs = nil
+				first, second = mkSrv(gmtls.RequestClientCert, &now1), mkSrv(gmtls.RequireAndVerifyClientCert, &now2)
+			case "ticket-of-a-certificate-less-session-offered-to-a-server-requiring-any-certificate":
+				certs = nil
+				first, second = mkSrv(gmtls.NoClientCert, &now1), mkSrv(gmtls.RequireAnyClientCert, &now2)
 			default:
 				certs = []gmtls.Certificate{pki.cliSig, pki.cliEnc}
 				first, second = mkSrv(gmtls.RequireAndVerifyClientCert, &now1), mkSrv(gmtls.RequireAndVerifyClientCert, &now2)
